@@ -104,7 +104,8 @@ def cases(draw):
     elif prim == "max":
         A.update(x=draw(vec(n, -100, 100)), y=draw(st.one_of(st.just(0), vec(n, -100, 100))))
     elif prim == "vcat":
-        A.update(parts=[draw(vec(draw(st.integers(1, 3)), -10, 10)) for _ in range(draw(st.integers(1, 4)))])
+        part = st.one_of(vec(draw(st.integers(1, 3)), -10, 10), st.integers(-3, 5), fl(-10, 10))  # arrays or Python scalars
+        A.update(parts=[draw(part) for _ in range(draw(st.integers(1, 4)))])
     elif prim == "var":
         A.update(size=draw(st.integers(0, 5)))
     return {"prim": prim, "args": A}
@@ -196,7 +197,9 @@ def evaluate(prim, A, NPE=None):
         y = A["y"]
         return f_np(0 if y == 0 else npv(y), npv(A["x"])), f_cs(0 if y == 0 else dm(y), dm(A["x"])), 100.0
     if prim == "vcat":
-        return f_np(*[npv(p) for p in A["parts"]]), f_cs(*[dm(p) for p in A["parts"]]), 10.0
+        as_np = lambda p: npv(p) if isinstance(p, list) else p  # noqa: E731  scalars stay Python scalars (e.g. turn rates)
+        as_cs = lambda p: dm(p) if isinstance(p, list) else p  # noqa: E731
+        return f_np(*[as_np(p) for p in A["parts"]]), f_cs(*[as_cs(p) for p in A["parts"]]), 10.0
     raise ValueError(prim)
 
 
